@@ -432,6 +432,6 @@ PARTS = [
          exhaustive_note="box of (index,line,column) and all (start,end) index pairs"),
     Part("labelled", check_labelled, enumerate=enum_labelled,
          exhaustive_note="all pairs of points over index x line x column labels, each against all canonical ranges"),
-    Part("origins", check_origins, strategy=st_origins, quick=9600, thorough=320000),
-    Part("get_raw", check_get_raw, strategy=st_get_raw, quick=4000, thorough=96000),
+    Part("origins", check_origins, strategy=st_origins, quick=24000, thorough=320000),
+    Part("get_raw", check_get_raw, strategy=st_get_raw, quick=8000, thorough=96000),
 ]
